@@ -36,7 +36,7 @@ impl C12 {
             "twin_text": self.batch.iter().map(|f| twin(f).render()).collect::<Vec<_>>(),
             "ref_hash_seed": self.ref_hash_seed,
             "alone_hash_seed": self.alone_hash_seed,
-            "prelude": self.prelude.as_ref().map(|p| json!({"model": p.model, "k": p.k, "formulae": p.formulae})),
+            "prelude": crate::c04::prelude_to_json(&self.prelude),
             "variants": self.variants.iter().map(|v| json!({
                 "order": v.order, "mode": v.mode.name(), "observer": v.obs.to_json(), "hash_seed": v.hash_seed
             })).collect::<Vec<_>>(),
@@ -47,15 +47,7 @@ impl C12 {
             "batch": v["batch"], "variants": v["variants"],
             "ref_hash_seed": v["ref_hash_seed"], "nocache_hash_seed": v["alone_hash_seed"],
         }))?;
-        let prelude = if v["prelude"].is_object() {
-            Some(evalx::Prelude {
-                model: v["prelude"]["model"].as_str().unwrap_or("").to_string(),
-                k: v["prelude"]["k"].as_u64().unwrap_or(1) as u16,
-                formulae: v["prelude"]["formulae"].as_array().map(|a| a.iter().map(|s| s.as_str().unwrap_or("").to_string()).collect()).unwrap_or_default(),
-            })
-        } else {
-            None
-        };
+        let prelude = crate::c04::prelude_from_json(&v["prelude"]);
         Ok(C12 { batch: c.batch, ref_hash_seed: c.ref_hash_seed, alone_hash_seed: c.nocache_hash_seed, variants: c.variants, prelude })
     }
 }
@@ -305,38 +297,7 @@ pub fn generate(rng: &Rng, world: &World) -> C12 {
     let pos = r.below(rep.len() + 1);
     rep.insert(pos, r.below(n));
     variants.push(Variant { order: rep, mode: random_mode(&mut r, plain), obs: random_obs(&mut r, world), hash_seed: hs.next_u64() });
-    // a sibling network (same variables, regulation constraints dropped, one update function
-    // negated) analysed by the same thread just before
-    let prelude = if r.chance(1, 3) {
-        let mut negated = false;
-        let lines: Vec<String> = world
-            .model
-            .lines()
-            .map(|l| {
-                if l.starts_with('$') {
-                    if !negated && r.chance(1, 2) {
-                        if let Some((head, body)) = l.split_once(':') {
-                            negated = true;
-                            return format!("{head}: !({})", body.trim());
-                        }
-                    }
-                    l.to_string()
-                } else {
-                    let mut s = l.to_string();
-                    for arrow in [" ->? ", " -|? ", " -?? ", " -> ", " -| ", " -? "] {
-                        if s.contains(arrow) {
-                            s = s.replace(arrow, " -?? ");
-                            break;
-                        }
-                    }
-                    s
-                }
-            })
-            .collect();
-        Some(evalx::Prelude { model: lines.join("\n") + "\n", k: world.k, formulae: vec!["!{x}: AG EF {x}".to_string(), "!{x}: AX {x}".to_string()] })
-    } else {
-        None
-    };
+    let prelude = if r.chance(1, 3) { Some(crate::c04::sibling_prelude(&mut r, world)) } else { None };
     C12 { batch, ref_hash_seed: hs.next_u64(), alone_hash_seed: hs.next_u64(), variants, prelude }
 }
 
@@ -448,6 +409,7 @@ pub fn shrinks(sc: &C12) -> Vec<C12> {
         ref_hash_seed: sc.ref_hash_seed,
         nocache_hash_seed: sc.alone_hash_seed,
         variants: sc.variants.clone(),
+        prelude: None,
     };
     let mut out: Vec<C12> = crate::c04::shrinks(&as04)
         .into_iter()
